@@ -1,0 +1,24 @@
+//go:build verif
+
+package verifmq
+
+import (
+	"context"
+
+	mq "github.com/ipfs/boxo/bitswap/client/internal/messagequeue"
+	peer "github.com/libp2p/go-libp2p/core/peer"
+)
+
+type (
+	MessageQueue   = mq.MessageQueue
+	MessageNetwork = mq.MessageNetwork
+	State          = mq.VerifState
+)
+
+// New constructs a message queue (no DONT_HAVE timeout manager) with the given size limit.
+func New(ctx context.Context, p peer.ID, network MessageNetwork, maxMsgSize int) *MessageQueue {
+	return mq.VerifNew(ctx, p, network, maxMsgSize)
+}
+
+// SetHook installs the schedule-point callback (see messagequeue.VerifHook).
+func SetHook(h func(point, a, b, c int)) { mq.VerifHook = h }
